@@ -2,6 +2,8 @@
   SSE-2: what `setup` stores and what `search` reads back.
 -/
 import SSEPyVerif.Model.Schemes.SSE2
+import SSEPyVerif.Proofs.Schemes.PrpInj
+import SSEPyVerif.Proofs.Schemes.SSE1
 namespace SSEPy.Sch
 
 theorem lookup_iinsert (t : ITable) (k : Nat) (v : Bytes) (k' : Nat) :
@@ -37,7 +39,8 @@ def addrOf (K1 w : Bytes) (j : Nat) : Option Nat :=
 /-- `encList` inserts `addr(w, j0 + i) ↦ ids[i]` for every i, in order -/
 theorem encList_lookup (K1 w : Bytes) (j0 : Nat) (ids : List Bytes) (I : ITable) (cnt : List (Bytes × Nat))
     (I' : ITable) (cnt' : List (Bytes × Nat)) (h : encList cfg lv K1 w j0 ids I cnt = .ok (I', cnt'))
-    (hinj : ∀ i i', i < ids.length → i' < ids.length → addrOf cfg lv K1 w (j0 + i) = addrOf cfg lv K1 w (j0 + i') → i = i') :
+    (hinj : ∀ i i' a, i < ids.length → i' < ids.length → addrOf cfg lv K1 w (j0 + i) = some a →
+      addrOf cfg lv K1 w (j0 + i') = some a → i = i') :
     (∀ i, i < ids.length → ∃ a, addr cfg lv K1 w ((j0 + i : Nat) : Int) = .ok a ∧ I'.lookup a = ids[i]?) ∧
     (∀ k, (∀ i, i < ids.length → addrOf cfg lv K1 w (j0 + i) ≠ some k) → I'.lookup k = I.lookup k) := by
   induction ids generalizing j0 I cnt with
@@ -51,9 +54,9 @@ theorem encList_lookup (K1 w : Bytes) (j0 : Nat) (ids : List Bytes) (I : ITable)
     · cases h
     · rename_i a ha
       have hrec := ih (j0 + 1) (iinsert I a id) _ h (by
-        intro i i' hi hi' he
-        have := hinj (i + 1) (i' + 1) (by simp; omega) (by simp; omega)
-          (by simpa [Nat.add_assoc, Nat.add_comm 1] using he)
+        intro i i' a' hi hi' he he'
+        have := hinj (i + 1) (i' + 1) a' (by simp; omega) (by simp; omega)
+          (by simpa [Nat.add_assoc, Nat.add_comm 1] using he) (by simpa [Nat.add_assoc, Nat.add_comm 1] using he')
         omega)
       obtain ⟨h1, h2⟩ := hrec
       refine ⟨?_, ?_⟩
@@ -66,8 +69,8 @@ theorem encList_lookup (K1 w : Bytes) (j0 : Nat) (ids : List Bytes) (I : ITable)
           · simp [lookup_iinsert]
           · intro i' hi' he
             have ha0 : addrOf cfg lv K1 w (j0 + 0) = some a := by simp [addrOf, ha]
-            have := hinj 0 (i' + 1) (by simp) (by simp; omega)
-              (by rw [ha0]; simpa [Nat.add_assoc, Nat.add_comm 1] using he.symm)
+            have := hinj 0 (i' + 1) a (by simp) (by simp; omega) ha0
+              (by simpa [Nat.add_assoc, Nat.add_comm 1] using he)
             omega
         | succ i' =>
           obtain ⟨a', ha', hl⟩ := h1 i' (by simp at hi; omega)
@@ -89,8 +92,8 @@ def IsStored (K1 : Bytes) (db : DB) (k : Nat) : Prop :=
 
 /-- the addresses of the stored postings are pairwise distinct (PRP injectivity on the distinct inputs `w ‖ j`) -/
 def AddrInj (K1 : Bytes) (db : DB) : Prop :=
-  ∀ w ids i w' ids' i', (w, ids) ∈ db → (w', ids') ∈ db → i < ids.length → i' < ids'.length →
-    addrOf cfg lv K1 w (1 + i) = addrOf cfg lv K1 w' (1 + i') → w = w' ∧ i = i'
+  ∀ w ids i w' ids' i' a, (w, ids) ∈ db → (w', ids') ∈ db → i < ids.length → i' < ids'.length →
+    addrOf cfg lv K1 w (1 + i) = some a → addrOf cfg lv K1 w' (1 + i') = some a → w = w' ∧ i = i'
 
 theorem encDb_lookup (K1 : Bytes) (db : DB) (I : ITable) (cnt : List (Bytes × Nat)) (I' : ITable) (cnt' : List (Bytes × Nat))
     (h : encDb cfg lv K1 db I cnt = .ok (I', cnt')) (hk : (db.map (·.1)).Nodup) (hinj : AddrInj cfg lv K1 db) :
@@ -112,12 +115,12 @@ theorem encDb_lookup (K1 : Bytes) (db : DB) (I : ITable) (cnt : List (Bytes × N
       simp only at h
       simp only [List.map_cons, List.nodup_cons] at hk
       have hinj_rest : AddrInj cfg lv K1 rest := by
-        intro w ids i w' ids' i' hm hm' hi hi' he
-        exact hinj w ids i w' ids' i' (by simp [hm]) (by simp [hm']) hi hi' he
+        intro w ids i w' ids' i' a hm hm' hi hi' he he'
+        exact hinj w ids i w' ids' i' a (by simp [hm]) (by simp [hm']) hi hi' he he'
       obtain ⟨r1, r2⟩ := ih I1 cnt1 h hk.2 hinj_rest
       obtain ⟨l1, l2⟩ := encList_lookup cfg lv K1 w0 1 ids0 I cnt I1 cnt1 hr (by
-        intro i i' hi hi' he
-        exact (hinj w0 ids0 i w0 ids0 i' (by simp) (by simp) hi hi' he).2)
+        intro i i' a hi hi' he he'
+        exact (hinj w0 ids0 i w0 ids0 i' a (by simp) (by simp) hi hi' he he').2)
       refine ⟨?_, ?_⟩
       · intro w ids hm i hi
         simp only [List.mem_cons, Prod.mk.injEq] at hm
@@ -128,7 +131,7 @@ theorem encDb_lookup (K1 : Bytes) (db : DB) (I : ITable) (cnt : List (Bytes × N
           -- a is not an address of the rest of the database
           rintro ⟨w', ids', i', hm', hi', he'⟩
           have hs : addrOf cfg lv K1 w (1 + i) = some a := by unfold addrOf; rw [ha]
-          have := (hinj w ids i w' ids' i' (by simp) (by simp [hm']) hi hi' (by rw [hs, he'])).1
+          have := (hinj w ids i w' ids' i' a (by simp) (by simp [hm']) hi hi' hs he').1
           subst this
           exact hk.1 (List.mem_map.mpr ⟨(w, ids'), hm', rfl⟩)
         · exact r1 w ids hm i hi
@@ -200,6 +203,97 @@ theorem fillAll_noop (K1 : Bytes) (cnt : List (Bytes × Nat)) (n : Int) (I : ITa
     have hc : c - cfg.max = 0 := by have := h (id, c) (by simp); simp at this; omega
     simp only [fillAll, hc, fillOne_zero, bind, Except.bind]
     exact ih _ _ (fun q hq => h q (by simp [hq]))
+
+/-- what an address is: the PRP image (invertible, C15) of the `(l·8 + bits)`-bit message `keyword ‖ counter` -/
+theorem addr_spec (hl : ∀ k m, (lv.hmac k m).length = 20) (hl8 : 0 < (cfg.l * 8).toNat) (hbits : 0 < cfg.bitsNM) (K1 : Bytes) :
+    ∃ kb : Bytes, ∀ (w : Bytes) (j a : Nat), addr cfg lv K1 w (j : Int) = .ok a →
+      ∃ out : Bitset, out.value = a ∧ out.length = (cfg.l * 8).toNat + cfg.bitsNM ∧ j < 2 ^ cfg.bitsNM ∧
+        ffxDecrypt (ffxRound lv.hmac 20 kb) DEFAULT_ROUNDS out =
+          .ok ⟨fromBE w * 2 ^ cfg.bitsNM + j, (cfg.l * 8).toNat + cfg.bitsNM⟩ := by
+  cases hkey : Bitset.ofBytes K1 (cfg.k * 8).toNat with
+  | error e =>
+    refine ⟨[], ?_⟩
+    intro w j a h
+    simp [addr, hkey, bind, Except.bind] at h
+  | ok key =>
+    obtain ⟨hkw, _, _⟩ := SSE1.mk'_spec _ _ key hkey
+    obtain ⟨kb, hkb, _, _⟩ := C18.bytes_spec key hkw
+    refine ⟨kb, ?_⟩
+    intro w j a h
+    simp only [addr, hkey, bind, Except.bind] at h
+    split at h
+    · cases h
+    · rename_i wb hwb
+      split at h
+      · cases h
+      · rename_i jb hjb
+        split at h
+        · cases h
+        · rename_i cb hcb
+          split at h
+          · cases h
+          · rename_i msg hmsg
+            split at h
+            · cases h
+            · rename_i out hout
+              simp only [pure, Except.pure] at h
+              cases h
+              obtain ⟨w1, w2, w3⟩ := SSE1.mk'_spec _ _ wb hwb
+              obtain ⟨c1, c2, c3⟩ := SSE1.mk'_spec _ _ cb hcb
+              have hwl := w3 (by omega)
+              have hcl := c3 (by omega)
+              -- the counter bytes decode to j
+              have hj : fromBE jb = j := by
+                have e : (cfg.bytesNM : Int) = ((cfg.bytesNM : Nat) : Int) := rfl
+                rw [(C17.int_wrapper_agrees j cfg.bytesNM).1] at hjb
+                exact (C17.int_roundtrip j cfg.bytesNM jb hjb).1
+              rw [hj] at c2
+              have hjlt : j < 2 ^ cfg.bitsNM := by
+                have := c1; unfold Bitset.WF at this; rw [c2, hcl] at this; exact this
+              unfold Bitset.concat at hmsg
+              obtain ⟨m1, m2, m3⟩ := SSE1.mk'_spec _ _ msg hmsg
+              have hml : msg.length = (cfg.l * 8).toNat + cfg.bitsNM := by rw [m3 (by omega), hwl, hcl]
+              have hmv : msg.value = fromBE w * 2 ^ cfg.bitsNM + j := by rw [m2, w2, hcl, c2]
+              obtain ⟨kb', o, hkb', ho, how, hol, hd⟩ := C15.bit_prp_is_ffx lv.hmac 20 hl (by decide) key msg hkw m1 (by omega)
+              rw [hkb] at hkb'; cases hkb'
+              have hk8 : (key.length : Int) = cfg.k * 8 := by
+                by_cases hne : (key.length : Int) = cfg.k * 8
+                · exact hne
+                · rw [(C15.bit_prp_contracts lv.hmac 20 _ _ key msg).1 hne] at hout; cases hout
+              have hm8 : (msg.length : Int) = cfg.l * 8 + cfg.bitsNM := by
+                by_cases hne : (msg.length : Int) = cfg.l * 8 + cfg.bitsNM
+                · exact hne
+                · rw [(C15.bit_prp_contracts lv.hmac 20 _ _ key msg).2 hk8 hne] at hout; cases hout
+              rw [← hk8, ← hm8, ho] at hout
+              cases hout
+              have hm_eq : msg = ⟨fromBE w * 2 ^ cfg.bitsNM + j, (cfg.l * 8).toNat + cfg.bitsNM⟩ := by
+                cases msg; simp only at hmv hml; subst hmv; subst hml; rfl
+              exact ⟨out, rfl, by rw [hol, hml], hjlt, by rw [← hm_eq]; exact hd⟩
+
+/-- distinct (keyword, counter) pairs have distinct addresses — keywords without a leading NUL byte -/
+theorem addr_inj (hl : ∀ k m, (lv.hmac k m).length = 20) (hl8 : 0 < (cfg.l * 8).toNat) (hbits : 0 < cfg.bitsNM) (K1 : Bytes)
+    (w w' : Bytes) (j j' a : Nat) (hw : NoLeadingNul w) (hw' : NoLeadingNul w')
+    (h : addr cfg lv K1 w (j : Int) = .ok a) (h' : addr cfg lv K1 w' (j' : Int) = .ok a) : w = w' ∧ j = j' := by
+  obtain ⟨kb, hkb⟩ := addr_spec cfg lv hl hl8 hbits K1
+  obtain ⟨o, ov, ol, jl, od⟩ := hkb w j a h
+  obtain ⟨o', ov', ol', jl', od'⟩ := hkb w' j' a h'
+  have : o = o' := by
+    cases o; cases o'
+    simp only at ov ov' ol ol'
+    subst ov; subst ol
+    rw [ov', ol']
+  rw [this, od'] at od
+  simp only [Except.ok.injEq, Bitset.mk.injEq, and_true] at od
+  have hpos : 0 < 2 ^ cfg.bitsNM := Nat.pow_pos (by decide)
+  have hq : fromBE w' = fromBE w := by
+    have h1 : (fromBE w' * 2 ^ cfg.bitsNM + j') / 2 ^ cfg.bitsNM = fromBE w' := by
+      rw [Nat.mul_comm, Nat.mul_add_div hpos, Nat.div_eq_of_lt jl']; rfl
+    have h2 : (fromBE w * 2 ^ cfg.bitsNM + j) / 2 ^ cfg.bitsNM = fromBE w := by
+      rw [Nat.mul_comm, Nat.mul_add_div hpos, Nat.div_eq_of_lt jl]; rfl
+    rw [← h1, ← h2, od]
+  refine ⟨(fromBE_inj w' w hw' hw hq).symm, ?_⟩
+  rw [hq] at od
+  omega
 
 end SSE2
 end SSEPy.Sch
